@@ -12,9 +12,13 @@ T = S.TICKS
 RETRY = {0: "NONE", 1: "BEST_EFFORT", -1: "RETRY_ON_TIMEOUT"}
 
 
-def drive(run, role, events, key=7, mtu=1500, every=True, check_model=True):
+def drive(run, role, events, key=7, mtu=1500, every=True, check_model=True, seq0=None, probe=None):
     """returns dict(agree, diff, itrace, raws (per event: list of bytes), errs (per event: exception
-    codes raised), impl, env)"""
+    codes raised), impl, env)
+    seq0 (optional) = [datagram counter, message counter]: the connection starts with these sequence counters
+    (just below the ring wrap, say); the model side then starts from the same values (unit conn_run_from).
+    probe (optional) = fn(conn) -> None | dict, evaluated on the real connection object after every event;
+    the non-None answers are returned as res["probe"] = [(event index, answer)..]"""
     keys = S.Keys()
     env = S.env_for_mtu(mtu)
     try:
@@ -24,8 +28,13 @@ def drive(run, role, events, key=7, mtu=1500, every=True, check_model=True):
                 S.CLOCK.t = min(S.CLOCK.t, ev[1])
                 break
         impl = S.Impl(role, keys, key=key, established=True)
+        if seq0 is not None:
+            from mpgameserver.connection import SeqNum
+            impl.conn.seq_sending = SeqNum(seq0[0])
+            impl.conn.seq_message = SeqNum(seq0[1])
         now0 = S.CLOCK.t
         itrace, mevs, index, raws, errs = [], [], [], [], []
+        probed = []
         for n, ev in enumerate(events):
             impl.last_sent = []
             outs, mev = impl.apply(ev)
@@ -35,10 +44,14 @@ def drive(run, role, events, key=7, mtu=1500, every=True, check_model=True):
             itrace.append([S.canon(outs), S.snapshot(impl.conn, keys) if (every or last) else []])
             raws.append(list(impl.last_sent) if ev[0] in ("ctick", "stick") else [])
             errs.append([o[1] for o in outs if o[0] == 3])
+            if probe is not None:
+                a = probe(impl.conn)
+                if a is not None:
+                    probed.append((n, a))
     finally:
         S.restore_mtu()
     res = {"agree": True, "diff": None, "itrace": itrace, "raws": raws, "errs": errs, "impl": impl, "env": env,
-           "keys": keys}
+           "keys": keys, "probe": probed}
     if check_model:
         init = [1 if role == "server" else 0, key if key is not None else -1, 2, now0]
         unit = "conn_run"
@@ -46,7 +59,10 @@ def drive(run, role, events, key=7, mtu=1500, every=True, check_model=True):
             # Packet.setMTU on a live connection: the history carries [9, env'] events (unit conn_run_mtu);
             # `env` is the environment the connection was created under
             unit = "conn_run_mtu"
-            init = init + [0, 0]
+            init = init + (list(seq0) if seq0 is not None else [0, 0])
+        elif seq0 is not None:
+            unit = "conn_run_from"
+            init = init + list(seq0)
         reply = run.model.call(unit, [env, init, mevs, 1 if every else 0])
         for n, i in enumerate(index):
             a = itrace[n]
